@@ -2,7 +2,7 @@
    Gen/XyzElements.v, Gen/Units.v (tie T) and Gen/ScaleExpr.v (tie S) are regenerated from /repo on every run,
    so the table obligations below are re-decided against the current code. *)
 From Coq Require Import List Bool ZArith NArith QArith String Reals Qreals.
-From Molli Require Import Common.ParseStr Model.Parse Model.XyzText Proofs.Parse Proofs.XyzText.
+From Molli Require Import Common.ParseStr Model.Parse Model.XyzText Model.XyzEdit Proofs.Parse Proofs.XyzText Proofs.XyzEdit.
 From Molli Require Import Gen.XyzElements Gen.Units Gen.ScaleExpr.
 Import ListNotations.
 Local Open Scope list_scope.
@@ -43,6 +43,38 @@ Example C08_roundtrip_nonvacuous :
                              mk_wgeom (s2l "") []] = Some ls /\ List.length ls = 6%nat.
 Proof. eexists. split; vm_compute; reflexivity. Qed.
 
+(* Sessions on ONE object (write, edit in place, write again, ...): every write -- of the whole geometry / ensemble
+   or of one conformer -- reads back as the state the object has at the time of THAT write, whatever was written or
+   edited before.  The edits: an atom's element, two elements exchanged, a coordinate row, a whole frame, the name,
+   an atom added or deleted, a frame appended. *)
+Theorem C08_session : forall steps e,
+  Forall2 (fun out exp => forall ls, out = Some ls -> exists ms, exp = Some ms /\ load_xyz names ls = Ok ms)
+          (run_session syms e steps) (session_expect e steps).
+Proof. exact (xyz_session_roundtrip names syms C08_vocabulary). Qed.
+Print Assumptions C08_session.
+(* in particular an element edit that keeps the atom count is visible in every frame of the next write *)
+Theorem C08_edit_then_write : forall e i z ls, wf_ens e -> (i < List.length (we_elems e))%nat ->
+  write_ens syms (apply_wop (WSetElem i z) e) = Some ls ->
+  exists ms, load_xyz names ls = Ok ms /\ List.length ms = List.length (we_frames e) /\
+             Forall (fun m => nth_error (m_elems m) i = Some z /\
+                              forall j, j <> i -> nth_error (m_elems m) j = nth_error (we_elems e) j) ms.
+Proof. intros e i z ls. apply xyz_edit_then_write. exact C08_vocabulary. Qed.
+Print Assumptions C08_edit_then_write.
+Example C08_session_nonvacuous :
+  let e := mk_wens (s2l "e") [6%Z; 1%Z; 17%Z] [[((false, 0%N), (false, 0%N), (false, 0%N)); ((false, 1%N), (true, 2%N), (false, 3%N));
+                                          ((true, 5%N), (false, 0%N), (false, 1000000%N))];
+                                         [((false, 9%N), (false, 0%N), (false, 0%N)); ((false, 1%N), (true, 2%N), (false, 3%N));
+                                          ((true, 5%N), (false, 0%N), (false, 2000000%N))]] in
+  wf_ens e /\
+  match run_session syms e [WWriteAll; WEdit (WSetElem 2 35%Z); WEdit (WSwapElem 0 1); WWriteAll; WWriteFrame 1] with
+  | [Some a; Some b; Some c] =>
+    (List.length a =? 10)%nat && (List.length b =? 10)%nat && (List.length c =? 5)%nat &&
+    negb (list_eqb str_eqb a b) && str_eqb (firstn 2 (nth 4 b [])) (s2l "Br") && str_eqb (firstn 2 (nth 4 a [])) (s2l "Cl") &&
+    str_eqb (firstn 1 (nth 2 b [])) (s2l "H") && str_eqb (firstn 2 (nth 4 c [])) (s2l "Br")
+  | _ => false
+  end = true.
+Proof. split; [repeat constructor|vm_compute; reflexivity]. Qed.
+
 (* Units (S + T): for EVERY member of the regenerated DistanceUnit table, a coordinate c (in Angstrom) written in
    that unit (c times units-per-Angstrom) is returned by the reader as c -- physical distances unchanged --
    over the reals, using the scale(...) argument extracted from the current source of each reader. *)
@@ -62,6 +94,42 @@ Proof.
   intros r Hr. apply units_law. rewrite forallb_forall in H. now apply H.
 Qed.
 Print Assumptions C08_units_mol2.
+
+(* Units on EVERY path (S): the body of the block loop of each reader, in continuation form with its conditions
+   left opaque (for the mol2 reader: the charge-type header, whether the target class keeps per-atom charges, ...),
+   yields on every valuation of those conditions an object that has passed the scale statement exactly once; so
+   whatever the header says and whichever class is loaded, the coordinate handed out is in Angstrom. *)
+Theorem C08_units_xyz_paths : forall r, In r (rows_for xyz_scale_guarded) ->
+  forall (env : nat -> bool) n, In n (run_tail env xyz_tail 0) -> forall c : R,
+  read_coord_nR xyz_scale_expr (snd r) (Q2R (snd (fst r))) n (Q2R (snd (fst r)) * c)%R = c.
+Proof.
+  assert (H : forallb (row_ok xyz_scale_expr) (rows_for xyz_scale_guarded) = true) by (vm_compute; reflexivity).
+  assert (T : tail_ok xyz_tail_conds xyz_tail = true) by (vm_compute; reflexivity).
+  intros r Hr. eapply units_law_paths; [|exact T]. rewrite forallb_forall in H. now apply H.
+Qed.
+Print Assumptions C08_units_xyz_paths.
+Theorem C08_units_mol2_paths : forall r, In r (rows_for mol2_scale_guarded) ->
+  forall (env : nat -> bool) n, In n (run_tail env mol2_tail 0) -> forall c : R,
+  read_coord_nR mol2_scale_expr (snd r) (Q2R (snd (fst r))) n (Q2R (snd (fst r)) * c)%R = c.
+Proof.
+  assert (H : forallb (row_ok mol2_scale_expr) (rows_for mol2_scale_guarded) = true) by (vm_compute; reflexivity).
+  assert (T : tail_ok mol2_tail_conds mol2_tail = true) by (vm_compute; reflexivity).
+  intros r Hr. eapply units_law_paths; [|exact T]. rewrite forallb_forall in H. now apply H.
+Qed.
+Print Assumptions C08_units_mol2_paths.
+(* not vacuous: some path of each loop body does yield *)
+Example C08_units_paths_nonvacuous :
+  (exists env : nat -> bool, run_tail env xyz_tail 0 <> []) /\ (exists env : nat -> bool, run_tail env mol2_tail 0 <> []).
+Proof.
+  split; [apply (tail_ok_yields xyz_tail_conds)|apply (tail_ok_yields mol2_tail_conds)]; vm_compute; reflexivity.
+Qed.
+(* a yield placed before the scale statement on one branch (early exit for NO_CHARGES / charge-less classes) breaks it *)
+Theorem C08_units_refuted_by_early_yield :
+  let t := TIf 0 (TYield TStop) (TScale (TYield TEnd)) in
+  tail_ok 1 t = false /\
+  exists v c : R, v <> 0%R /\ In 0%nat (run_tail (fun _ => true) t 0) /\
+                  read_coord_nR (SDiv (SConst 1) SVal) false v 0 (v * c)%R <> c.
+Proof. exact units_law_refuted_by_early_yield. Qed.
 
 (* the table itself: Bohr, pm, nm, fm and Angstrom are present, and every member whose physical value is known
    agrees with it to 1e-5 (values written from the definitions of the units, not from the code) *)
